@@ -218,6 +218,28 @@ func c17Gen(rng *core.RNG, idx int) c17Profile {
 		}
 		tags = append(tags, imggen.ICCTag{Sig: sig, Data: rng.Bytes(rng.Intn(120))})
 	}
+	// private tags: in a quarter of the profiles the other tags carry arbitrary 32-bit signatures
+	// (bytes above 0x7F included; registered private tags look like that), so that a table that orders
+	// or hashes signatures sees more than lower-case ASCII
+	if idx%4 == 2 {
+		used := map[string]bool{"desc": true}
+		for i := range tags {
+			if tags[i].Sig == "desc" {
+				continue
+			}
+			for {
+				sg := string([]byte{byte(rng.Intn(256)), byte(rng.Intn(256)), byte(rng.Intn(256)), byte(rng.Intn(256))})
+				if i%2 == 0 {
+					sg = string([]byte{byte(0x80 + rng.Intn(128)), byte(rng.Intn(256)), byte(rng.Intn(256)), byte(rng.Intn(256))})
+				}
+				if !used[sg] {
+					used[sg] = true
+					tags[i].Sig = sg
+					break
+				}
+			}
+		}
+	}
 	// decoys: in a third of the profiles other tags (Apple's 'dscm', the device manufacturer / model
 	// descriptions, copyright, viewing-conditions description ...) carry well-formed description
 	// elements of their own, with other text; the description is still the 'desc' tag's
@@ -360,6 +382,15 @@ func c17Check(profile []byte, accept []string, hasDesc bool, via string) (kind, 
 		}
 		return "", "ok"
 	}
+	if via == "after-rejected" {
+		// history: cut copies of this very profile (inside the header, the tag table, the tag data)
+		// are read - and rejected - immediately before
+		for _, cut := range []int{100, 130, 132 + 7, len(data) / 2, len(data) - 1} {
+			if cut > 0 && cut < len(data) {
+				_, _, _ = readProfile(bytes.NewReader(data[:cut]))
+			}
+		}
+	}
 	if via == "source-reused" || via == "concurrent-description" {
 		// source-reused: the profile is read from a bytes.Buffer / a byte slice which the caller then
 		// reuses for something else before asking for the description
@@ -463,7 +494,7 @@ func runC17(r *core.Run) {
 		var ring []c17Kept
 		for i := 0; i < n/shards; i++ {
 			p := c17Gen(rg, sh*(n/shards)+i)
-			for _, via := range []string{"direct", "jpeg", "offset", "bufio@4000", "source-reused", "concurrent-description"} {
+			for _, via := range []string{"direct", "jpeg", "offset", "bufio@4000", "source-reused", "concurrent-description", "after-rejected"} {
 				if via != "direct" && i%8 != 0 {
 					continue
 				}
